@@ -321,6 +321,37 @@ theorem C07_received_two_lines (proto : Bytes) (p : Peer) (helo : Option Bytes) 
 
 example : (received pSMTP ⟨some [10, 32, 10], none, some [40, 10], none, none⟩ (some [13, 10]) 0).count LF = 2 := by decide
 
+/-! ### the safe set is the documented one; the field is the specified one and is well formed -/
+
+set_option maxRecDepth 100000 in
+/-- **C07_received_safe (c).**  `issafe()` — the table regenerated from received.c on every run — accepts exactly the
+    documented set: letters, digits and `. @ % + / = : - [ ]` (`Spec.C07.safeSpec`, written down independently of the
+    code).  In particular no backslash, quote, parenthesis, angle bracket, comma, semicolon, space, control or 8-bit
+    byte.  If the source starts to let any other byte through, this theorem no longer checks. -/
+theorem C07_issafe_documented : ∀ c : Byte, issafe c = Nq.Spec.C07.safeSpec c :=
+  byte_cases _ (by decide)
+
+/-- `safeput` is the specification's `clean`: C string, every byte outside the documented set replaced by `?` -/
+theorem C07_safeput_clean (s : Bytes) : safeput s = Nq.Spec.C07.clean s := by
+  unfold safeput Nq.Spec.C07.clean
+  apply List.map_congr_left
+  intro c _
+  unfold sanitize
+  rw [C07_issafe_documented c]
+  rfl
+
+/-- **C07_received_spec.**  What `received()` hands to the queue is, byte for byte, the specified field
+    (`Spec.C07.receivedHead`: fixed words, every peer-supplied part cleaned) followed by the date — for every
+    HELO / TCPREMOTEHOST / TCPREMOTEINFO / TCPREMOTEIP / TCPLOCALHOST / TCPLOCALIP string and every clock value. -/
+theorem C07_received_spec (proto : Bytes) (p : Peer) (helo : Option Bytes) (t : Nat) :
+    received proto p helo t =
+      Nq.Spec.C07.receivedHead proto p.remotehost p.remoteip p.loc p.info helo ++ date822 (datetimeTai t) := by
+  unfold received Nq.Spec.C07.receivedHead
+  simp only [C07_safeput_clean]
+  cases helo <;> cases p.info <;>
+    simp [lFrom, lHelo, lClose, lParen, lAt, lBy, lWith, lSemi, Nq.Spec.C07.wFrom, Nq.Spec.C07.wHelo,
+      Nq.Spec.C07.wClose, Nq.Spec.C07.wOpen, Nq.Spec.C07.wAt, Nq.Spec.C07.wBy, Nq.Spec.C07.wWith, Nq.Spec.C07.wSemi]
+
 /-! ## 4. the replies -/
 
 /-- a verdict as `qmail_close` produces it for a queue program that honours its interface: success, or `D…`, or `Z…` -/
